@@ -439,8 +439,27 @@ def r6_whole_input_is_parsed(ctx: Ctx) -> None:
     ok = len(loops) == 1 and unparse(loops[0].iter) == cg.params()[0] and not [s for s in walk_no_nested(loops[0]) if isinstance(s, (ast.Break, ast.Continue, ast.Return))]
     ctx.check(ok, "_code_gen:every-node", "every parsed node is expanded (or raises 'Left over node')")
     if loops:
-        other = [s for s in walk_no_nested(loops[0]) if isinstance(s, ast.If) and s.orelse and always_raises(s.orelse)]
-        ctx.check(len(other) == 1, "_code_gen:unknown-kind-raises", "a node kind without a generator is an error, not skipped")
+        # the looked-up generator: `g = table.get(kind)` must lead to a raise when g is None, in any branch layout; a plain subscript
+        # raises KeyError by itself
+        gets = [s for s in walk_no_nested(loops[0]) if isinstance(s, ast.Assign) and isinstance(s.value, ast.Call) and (call_name(s.value) or "").endswith(".get")
+                and isinstance(s.targets[0], ast.Name)]
+        subs = [s for s in walk_no_nested(loops[0]) if isinstance(s, ast.Assign) and isinstance(s.value, ast.Subscript) and unparse(s.value.slice).endswith(".kind")]
+        if len(gets) == 1:
+            from ..facts import outcome_under
+
+            var = gets[0].targets[0].id  # type: ignore[union-attr]
+            has_default = len(gets[0].value.args) > 1 and not (isinstance(gets[0].value.args[1], ast.Constant) and gets[0].value.args[1].value is None)  # type: ignore[attr-defined]
+            body_fn = ast.FunctionDef(name="_loop_body", args=ast.arguments(posonlyargs=[], args=[], kwonlyargs=[], kw_defaults=[], defaults=[]), body=list(loops[0].body),
+                                      decorator_list=[], lineno=loops[0].lineno, col_offset=0)
+            try:
+                raises = outcome_under(body_fn, {var: False, f"{var} is None": True, f"callable({var})": False}, inline_locals=False) == "raise"
+            except AnalysisError:
+                raises = len([s for s in walk_no_nested(loops[0]) if isinstance(s, ast.If) and s.orelse and always_raises(s.orelse)]) == 1
+            ctx.check(raises and not has_default, "_code_gen:unknown-kind-raises", "a node kind without a generator is an error, not skipped")
+        elif subs and not gets:
+            ctx.ok("_code_gen:unknown-kind-raises", "the generator table is subscripted: an unknown kind raises KeyError")
+        else:
+            raise AnalysisError("_code_gen: generator lookup not recognised")
 
 
 def r7_unmapped_address_rejected(ctx: Ctx) -> None:
